@@ -70,9 +70,20 @@ def rByte : CR UInt8
   | [] => .error (.eof, [])
   | b :: r => .ok (b, r)
 
+/-- the first n bytes and the rest, `none` when fewer than n are left (linear in n, not in the input) -/
+def splitExact : Nat → Bytes → Option (Bytes × Bytes)
+  | 0, r => some ([], r)
+  | _ + 1, [] => none
+  | n + 1, b :: r =>
+    match splitExact n r with
+    | some (a, r') => some (b :: a, r')
+    | none => none
+
 /-- io.ReadFull into a fresh buffer of n bytes: consumes what is there before failing -/
 def rN (n : Nat) : CR Bytes := fun inp =>
-  if inp.length < n then .error (.eof, []) else .ok (inp.take n, inp.drop n)
+  match splitExact n inp with
+  | none => .error (.eof, [])
+  | some x => .ok x
 
 /-- `(*decode).readLength` of the cupcake decoder: (length as uint32, encoded) -/
 def cReadLength : CR (Nat × Bool) := fun inp =>
@@ -182,7 +193,9 @@ def bByte : BR UInt8
 
 /-- `Slice(n)` -/
 def bSlice (n : Nat) : BR Bytes := fun buf =>
-  if buf.length < n then .error .eof else .ok (buf.take n, buf.drop n)
+  match splitExact n buf with
+  | none => .error .eof
+  | some x => .ok x
 
 def manyB {α : Type} (f : BR α) : Nat → BR (List α)
   | 0, buf => .ok ([], buf)
@@ -208,52 +221,60 @@ def zlLength (zl : Bytes) : Except DErr (Nat × Bytes) :=
   | .error e => .error e
   | .ok (b, r) => .ok (leNat b, r)
 
+/-- `readZiplistEntry` after the prevlen field: header byte and payload -/
+def zlBody : BR Bytes := fun r1 =>
+  match r1 with
+  | [] => .error .eof
+  | h :: r =>
+    let hn := h.toNat
+    if hn / 64 = 0 then bSlice (hn % 64) r
+    else if hn / 64 = 1 then
+      match r with
+      | [] => .error .eof
+      | b :: r' => bSlice ((hn % 64) * 256 + b.toNat) r'
+    else if hn / 64 = 2 then
+      match bSlice 4 r with
+      | .error e => .error e
+      | .ok (lb, r') => bSlice (beNat lb) r'
+    else if hn = 0xC0 then
+      match bSlice 2 r with
+      | .error e => .error e
+      | .ok (b, r') => .ok (fmtInt (signed 16 (leNat b)), r')
+    else if hn = 0xD0 then
+      match bSlice 4 r with
+      | .error e => .error e
+      | .ok (b, r') => .ok (fmtInt (signed 32 (leNat b)), r')
+    else if hn = 0xE0 then
+      match bSlice 8 r with
+      | .error e => .error e
+      | .ok (b, r') => .ok (fmtInt (signed 64 (leNat b)), r')
+    else if hn = 0xF0 then
+      -- `buf.Read(intBytes[1:])` copies UP TO three bytes (error only when none is left);
+      -- value = int32(LE32([0,b0,b1,b2])) >> 8, arithmetic
+      match r with
+      | [] => .error .eof
+      | _ =>
+        let b := r.take 3
+        let padded := b ++ List.replicate (3 - b.length) 0
+        .ok (fmtInt (signed 32 (leNat (0 :: padded)) / 256), r.drop 3)
+    else if hn = 0xFE then
+      match r with
+      | [] => .error .eof
+      | b :: r' => .ok (fmtInt (signed 8 b.toNat), r')
+    else if hn / 16 = 15 then .ok (fmtInt ((hn % 16 : Nat) - 1 : Int), r)
+    else .error .zlHeader
+
 /-- `readZiplistEntry` -/
 def zlEntry : BR Bytes := fun buf =>
   match buf with
   | [] => .error .eof
-  | p :: r0 =>
-    let r1 := if p.toNat = 254 then r0.drop 4 else r0          -- skip the 4-byte prevlen
-    match r1 with
-    | [] => .error .eof
-    | h :: r =>
-      let hn := h.toNat
-      if hn / 64 = 0 then bSlice (hn % 64) r
-      else if hn / 64 = 1 then
-        match r with
-        | [] => .error .eof
-        | b :: r' => bSlice ((hn % 64) * 256 + b.toNat) r'
-      else if hn / 64 = 2 then
-        match bSlice 4 r with
-        | .error e => .error e
-        | .ok (lb, r') => bSlice (beNat lb) r'
-      else if hn = 0xC0 then
-        match bSlice 2 r with
-        | .error e => .error e
-        | .ok (b, r') => .ok (fmtInt (signed 16 (leNat b)), r')
-      else if hn = 0xD0 then
-        match bSlice 4 r with
-        | .error e => .error e
-        | .ok (b, r') => .ok (fmtInt (signed 32 (leNat b)), r')
-      else if hn = 0xE0 then
-        match bSlice 8 r with
-        | .error e => .error e
-        | .ok (b, r') => .ok (fmtInt (signed 64 (leNat b)), r')
-      else if hn = 0xF0 then
-        -- `buf.Read(intBytes[1:])` copies UP TO three bytes (error only when none is left);
-        -- value = int32(LE32([0,b0,b1,b2])) >> 8, arithmetic
-        match r with
-        | [] => .error .eof
-        | _ =>
-          let b := r.take 3
-          let padded := b ++ List.replicate (3 - b.length) 0
-          .ok (fmtInt (signed 32 (leNat (0 :: padded)) / 256), r.drop 3)
-      else if hn = 0xFE then
-        match r with
-        | [] => .error .eof
-        | b :: r' => .ok (fmtInt (signed 8 b.toNat), r')
-      else if hn / 16 = 15 then .ok (fmtInt ((hn % 16 : Nat) - 1 : Int), r)
-      else .error .zlHeader
+  | p :: r0 => zlBody (if p.toNat = 254 then r0.drop 4 else r0)          -- skip the 4-byte prevlen
+
+/-- one member of an intset of width `intSize` bytes: little-endian two's complement, rendered in decimal -/
+def intsetElem (intSize : Nat) : BR Bytes := fun buf =>
+  match bSlice intSize buf with
+  | .error e => .error e
+  | .ok (b, r') => .ok (fmtInt (signed (8 * intSize) (leNat b)), r')
 
 /-- `readIntset` on the decoded string: the members as decimal texts -/
 def readIntset (s : Bytes) : Except DErr (List Bytes) :=
@@ -266,11 +287,7 @@ def readIntset (s : Bytes) : Except DErr (List Bytes) :=
       match bSlice 4 r with
       | .error e => .error e
       | .ok (cb, r2) =>
-        let elem : BR Bytes := fun buf =>
-          match bSlice intSize buf with
-          | .error e => .error e
-          | .ok (b, r') => .ok (fmtInt (signed (8 * intSize) (leNat b)), r')
-        match manyB elem (leNat cb) r2 with
+        match manyB (intsetElem intSize) (leNat cb) r2 with
         | .error e => .error e
         | .ok (xs, _) => .ok xs
 
@@ -378,6 +395,15 @@ def qlNodes : Nat → Bytes → Except DErr (List Bytes)
       | .error e => .error e
       | .ok ys => .ok (xs ++ ys)
 
+/-- member and score of a ziplist-encoded sorted set: two entries, the second through ParseFloat -/
+def zsetElem (pf : Bytes → Option UInt64) : BR (Bytes × UInt64) := fun b =>
+  match pairB zlEntry zlEntry b with
+  | .error e => .error e
+  | .ok ((m, st), r) =>
+    match pf st with
+    | none => .error .float
+    | some s => .ok ((m, s), r)
+
 /-- strip the rest from a main-reader result -/
 def done {α : Type} (x : Except (DErr × Bytes) (α × Bytes)) : Except DErr α :=
   match x with
@@ -430,13 +456,7 @@ def readObject (fixed : Bool) (pf : Bytes → Option UInt64) (t : UInt8) (inp : 
       match zlLength zl with
       | .error e => .error e
       | .ok (n, buf) =>
-        let elem : BR (Bytes × UInt64) := fun b =>
-          match pairB zlEntry zlEntry b with
-          | .error e => .error e
-          | .ok ((m, st), r) => match pf st with
-            | none => .error .float
-            | some s => .ok ((m, s), r)
-        match manyB elem (n / 2) buf with
+        match manyB (zsetElem pf) (n / 2) buf with
         | .error e => .error e
         | .ok (xs, _) => .ok (.startZSet :: xs.map fun (m, s) => .zadd s m)
   | 13 =>
@@ -454,8 +474,17 @@ def readObject (fixed : Bool) (pf : Bytes → Option UInt64) (t : UInt8) (inp : 
 
 /-! ### the adaptor of pkg/rdb/decoder.go -/
 
+/-- Go's `append(slice, x)` is modelled by consing onto a REVERSED accumulator; `adapt` reverses once at the end
+    (a snoc per element would make the executable model quadratic) -/
+def LValue.rev : LValue → LValue
+  | .str s => .str s
+  | .list xs => .list xs.reverse
+  | .set xs => .set xs.reverse
+  | .hash fvs => .hash fvs.reverse
+  | .zset ms => .zset ms.reverse
+
 structure ASt where
-  obj : Option LValue := none
+  obj : Option LValue := none      -- element lists in reverse order of arrival
   err : Bool := false
   deriving DecidableEq, Repr
 
@@ -475,22 +504,22 @@ def step (s : ASt) : Event → ASt
   | .hset f v =>
     if s.err then s else
     match s.obj with
-    | some (.hash h) => { s with obj := some (.hash (h ++ [(f, v)])) }
+    | some (.hash h) => { s with obj := some (.hash ((f, v) :: h)) }
     | _ => { s with err := true }
   | .sadd m =>
     if s.err then s else
     match s.obj with
-    | some (.set xs) => { s with obj := some (.set (xs ++ [m])) }
+    | some (.set xs) => { s with obj := some (.set (m :: xs)) }
     | _ => { s with err := true }
   | .rpush v =>
     if s.err then s else
     match s.obj with
-    | some (.list xs) => { s with obj := some (.list (xs ++ [v])) }
+    | some (.list xs) => { s with obj := some (.list (v :: xs)) }
     | _ => { s with err := true }
   | .zadd sc m =>
     if s.err then s else
     match s.obj with
-    | some (.zset xs) => { s with obj := some (.zset (xs ++ [(m, sc)])) }
+    | some (.zset xs) => { s with obj := some (.zset ((m, sc) :: xs)) }
     | _ => { s with err := true }
 
 /-- `return d.obj, d.err` after all events -/
@@ -498,7 +527,7 @@ def adapt (evs : List Event) : Except DErr LValue :=
   let s := evs.foldl step {}
   if s.err then .error .adaptor
   else match s.obj with
-    | some o => .ok o
+    | some o => .ok o.rev
     | none => .error .adaptor
 
 /-! ### entry points -/
